@@ -94,8 +94,6 @@ Definition only_new_empty_topics (pre post : state) : bool :=
 Definition admin_path (p : bytes) : bool :=
   is_prefix (str "/topic/") p || is_prefix (str "/channel/") p.
 
-Definition qpairs (q : query) : list (bytes * bytes) := match q with QOk ps => ps | QErr ps => ps end.
-
 (* what the named topic must look like after a successful admin request *)
 Definition with_chans (ts : topic_st) (cs : list (bytes * chan_st)) := mkTopic (ts_paused ts) (ts_depth ts) cs.
 Definition admin_expected (path t ch : bytes) (pre_t : option topic_st) : option (option topic_st) :=
@@ -165,6 +163,70 @@ Inductive twin :=
 
 Inductive pubkind := KPub | KMpubBinary | KMpubText.
 
+(* "400 for bad or missing arguments, 404 for an unknown topic/channel" - and only for
+   those: whatever error token the daemon answered must be true of the request and of the
+   state it met (Http.token_justified: INVALID_TOPIC / INVALID_ARG_* => that argument is
+   present and is NOT a valid name, MISSING_ARG_* => absent, *_NOT_FOUND => not in the
+   state, INVALID_DEFER => not a number of ms in range, INVALID_REQUEST => unparsable query
+   or unreadable body) ... *)
+Definition args_monitor (c : cfg) (pre : state) (r : request) (status : Z) (tok : bytes) : bool :=
+  tls_gate c || method_eqb (r_method r) MHead || (status =? 200) || is_3xx status || token_justified c pre r tok.
+
+(* ... and a well-formed POST to an admin endpoint whose named object meets the endpoint's
+   documented precondition (valid name(s); existing topic / channel where required) is
+   answered 200; one that does not, is not *)
+Definition admin_accept_monitor (c : cfg) (pre : state) (r : request) (status : Z) : bool :=
+  if tls_gate c || negb (method_eqb (r_method r) MPost) then true
+  else match r_query r with
+  | QErr _ => negb (status =? 200) || negb (admin_path (r_path r))
+  | QOk ps =>
+      match admin_precondition (r_path r) pre (qget k_topic ps) (qget k_channel ps) with
+      | Some true => r_body_err r || (status =? 200)
+      | Some false => negb (status =? 200)
+      | None => true
+      end
+  end.
+
+(* the same for the TCP twin: E_BAD_TOPIC only for a name that is not valid *)
+Definition twin_name (tw : twin) : option bytes :=
+  match tw with
+  | TwNone => None
+  | TwPub n _ _ | TwDpub n _ _ _ | TwMpub n _ _ => Some n
+  end.
+Definition tcp_code_justified (tw : twin) (code : bytes) : bool :=
+  match twin_name tw with
+  | Some n => implb (bytes_eqb code E_BAD_TOPIC) (negb (is_valid_name n))
+  | None => true
+  end.
+
+(* a complete, well-formed publish that meets every documented limit must be accepted:
+   /pub with a valid topic, 1..max-msg-size bytes and no or an in-range defer; text /mpub
+   with a valid topic, at most max-body-size bytes and no line above max-msg-size *)
+Definition pub_must_accept (c : cfg) (kind : pubkind) (r : request) : bool :=
+  match r_query r with
+  | QErr _ => false
+  | QOk ps =>
+      method_eqb (r_method r) MPost && negb (r_body_err r) && negb (tls_gate c) &&
+      (match r_framing r with Declared n => n =? blen (r_body r) | Chunked => true end) &&
+      match qget k_topic ps with
+      | None => false
+      | Some t =>
+          is_valid_name t &&
+          match kind with
+          | KPub =>
+              bytes_eqb (r_path r) (str "/pub") &&
+              (1 <=? blen (r_body r)) && (blen (r_body r) <=? max_msg c) &&
+              match qget k_defer ps with Some ds => defer_documented c ds | None => true end
+          | KMpubText =>
+              bytes_eqb (r_path r) (str "/mpub") && negb (binary_mode ps) &&
+              (blen (r_body r) <=? max_body c) &&
+              forallb (fun l => blen l <=? max_msg c) (split_nl (r_body r))
+          | KMpubBinary => false
+          end
+      end
+  end.
+
+
 Inductive case :=
   (* any request against a known daemon state *)
 | Req (c : cfg) (pre : state) (r : request) (router_exact : bool)
@@ -223,7 +285,8 @@ Definition judge (k : case) : N :=
         (if pprof_path (r_path r) then true
          else if admin_path (r_path r) && method_eqb (r_method r) MPost then admin_monitor r status pre post
          else if is_4xx status || is_3xx status then only_new_empty_topics pre post && implb (admin_path (r_path r)) (state_eqb pre post)
-         else true) in
+         else true) &&
+        (pprof_path (r_path r) || (args_monitor c pre r status token && admin_accept_monitor c pre r status)) in
       verdict agree monitor
   | Route m path exact status token =>
       let agree := negb exact ||
@@ -276,6 +339,8 @@ Definition judge (k : case) : N :=
       let monitor :=
         status_ok (r_method r) (r_path r) status token && method_ok (r_method r) (r_path r) status && sizes_ok && size_table &&
         (http_ok || (is_nil hgot && is_nil hdef)) &&
+        args_monitor c [] r status token && tcp_code_justified tw tcode &&
+        implb (pub_must_accept c kind r) http_ok &&
         match tw with
         | TwNone => true
         | _ =>
